@@ -330,6 +330,8 @@ impl Sub for Sched {
             1 => Just(Op::DeleteAll),
             1 => Just(Op::Gc),
             1 => any::<u16>().prop_map(Op::Merge),
+            // the writer is dropped while its merge is held; a new writer (same Index) continues
+            1 => Just(Op::Reopen),
         ];
         (cfg, prop::collection::vec(prefix_op, 4..30), 0u8..3, 0u8..10, prop::collection::vec(during_op, 1..8), prop::collection::vec(op_strategy(true), 0..10))
             .prop_map(|(cfg, prefix, gate_kind, gate_nth, during, suffix)| SchedCase { cfg, prefix, gate_kind, gate_nth, during, suffix })
